@@ -118,6 +118,17 @@ def directed_cases(seed: int, tier: str) -> typing.List[dict]:
             {"op": "generate", "opts": {"extra_support": "readonly", "file_mode": 0o444, "pp_trim": True}},
             {"op": "generate", "opts": {"extra_support": "readonly", "file_mode": 0o600}},
         ],
+        "api-dry-run-then-real-into-cleaned-directory": [
+            {"op": "api_session", "opts": {"file_mode": 0o444}, "steps": [{"k": "dry"}, {"k": "gen"}, {"k": "wipe"}, {"k": "gen"}, {"k": "list"}, {"k": "wipe"}, {"k": "gen", "omit_ser": True}]},
+            {"op": "generate", "opts": {"file_mode": 0o644}},
+        ],
+        "api-caller-edits-between-calls": [
+            {"op": "generate", "opts": {"file_mode": 0o444}},
+            {"op": "api_session", "opts": {"file_mode": 0o640}, "steps": [{"k": "gen"}, {"k": "edit", "how": "content", "pick": 0, "content": "edited by the caller\n", "mode": 0o444}, {"k": "edit", "how": "remove", "pick": 3}, {"k": "gen"}, {"k": "edit", "how": "truncate", "pick": 1, "size": 1, "mode": 0o400}, {"k": "gen", "allow_overwrite": False}, {"k": "new_generators"}, {"k": "gen"}]},
+        ],
+        "api-no-overwrite-after-wipe": [
+            {"op": "api_session", "opts": {}, "steps": [{"k": "gen"}, {"k": "gen", "allow_overwrite": False}, {"k": "wipe"}, {"k": "gen", "allow_overwrite": False}, {"k": "gen", "which": "support"}]},
+        ],
         "omit-then-full": [
             {"op": "generate", "opts": {"omit_ser": True}},
             {"op": "generate", "opts": {}},
@@ -194,6 +205,41 @@ def _vary_opts(r: Rng, base: dict, tier: str) -> dict:
     return o
 
 
+def _session_opts(r: Rng, base: dict) -> dict:
+    """what an API caller decides when it builds its generators (kept for the whole session)"""
+    o = {k: base[k] for k in ("lang", "root", "lookups")}
+    if r.chance(2, 3):
+        o["file_mode"] = r.choice(FILE_MODES[:6])
+    if r.chance(1, 5):
+        o["pp_trim"] = True
+    if r.chance(1, 5):
+        o["pp_max_empty"] = r.choice([0, 1, 2])
+    return o
+
+
+def _session_steps(r: Rng) -> typing.List[dict]:
+    steps = []  # type: typing.List[dict]
+    for i in range(r.between(2, 6)):
+        rs = r.sub(i)
+        k = rs.weighted([("gen", 6), ("dry", 2), ("list", 1), ("wipe", 1), ("edit", 3), ("new_generators", 1)])
+        st = {"k": k}  # type: typing.Dict[str, typing.Any]
+        if k in ("gen", "dry"):
+            if rs.chance(1, 4):
+                st["allow_overwrite"] = False
+            if rs.chance(1, 4):
+                st["omit_ser"] = True
+            if rs.chance(1, 6):
+                st["which"] = rs.choice(["types", "support"])
+        elif k == "edit":
+            st.update({"how": rs.choice(["content", "content", "chmod", "remove", "truncate"]), "pick": rs.below(1000), "mode": rs.choice([0o644, 0o444, 0o600, 0o400]), "size": rs.choice([0, 1, 50])})
+            if st["how"] == "content":
+                st["content"] = rs.choice(["", "edited by the caller\n", "y" * 9000])
+        steps.append(st)
+    if not any(st["k"] == "gen" for st in steps):
+        steps.append({"k": "gen"})
+    return steps
+
+
 def _resolve_pick(pick: int, names: typing.List[str]) -> typing.Optional[str]:
     if not names:
         return None
@@ -248,7 +294,7 @@ def run_case(case: dict, ctx: dict) -> dict:
         enabled_faults = r.subset(FAULT_KINDS + ["extprog_fail"], 1, 2) or ["crash"]
         for i in range(n_ops):
             ro = r.sub("op", i)
-            kind = ro.weighted([("generate", 10), ("chmod", 2), ("plant", 2), ("truncate", 1), ("remove", 1), ("link", 2)]) if i > 0 else "generate"
+            kind = ro.weighted([("generate", 10), ("chmod", 2), ("plant", 2), ("truncate", 1), ("remove", 1), ("link", 2), ("api_session", 2)]) if i > 0 else ro.weighted([("generate", 8), ("api_session", 1)])
             if kind == "generate":
                 t = {"op": "generate", "opts": _vary_opts(ro.sub("opts"), base, tier)}  # type: typing.Dict[str, typing.Any]
                 if faulty_case and ro.chance(1, 3):
@@ -258,6 +304,8 @@ def run_case(case: dict, ctx: dict) -> dict:
                     if fk:
                         t["fault_pick"] = fk
                 templates.append(t)
+            elif kind == "api_session":
+                templates.append({"op": "api_session", "opts": _session_opts(ro.sub("sopts"), base), "steps": _session_steps(ro.sub("steps"))})
             elif kind == "chmod":
                 templates.append({"op": "chmod", "pick": ro.below(1000), "mode": ro.choice([0o444, 0o400, 0o000, 0o644, 0o222, 0o555, 0o3444, 0o2664])})
             elif kind == "plant":
@@ -418,6 +466,102 @@ def run_case(case: dict, ctx: dict) -> dict:
                     res["status"],
                 )
             )
+        elif kind == "api_session":
+            sopts = dict(op["opts"])
+            if base is not None:
+                for k in ("lang", "root", "lookups"):
+                    sopts.setdefault(k, base[k])
+            op["opts"] = sopts
+            session = dict(sopts, in_dir=world.in_dir, out_dir=out, steps=[dict(st) for st in op["steps"]])
+
+            def run_session(sess: dict) -> dict:
+                inv = world.invocation({"lang": sopts["lang"], "root": sopts["root"], "lookups": sopts.get("lookups", [])}, umask=world_knobs["umask"])
+                inv["entry"], inv["session"], inv["argv"] = "api_session", sess, ["api-session"]
+                return proc.run_invocation(inv)
+
+            def session_reference(step: dict) -> typing.Optional[typing.Dict[str, typing.Tuple[str, int]]]:
+                """what the same call on fresh generator objects writes into an empty directory at the same path"""
+                nonlocal evaluations
+                key = "session|" + repr((sorted((k, str(v)) for k, v in sopts.items()), bool(step.get("omit_ser")), step.get("which", "both"), world_knobs["umask"]))
+                if key not in ref_cache:
+                    aside = out + ".aside"
+                    had = os.path.lexists(out)
+                    if had:
+                        os.rename(out, aside)
+                    try:
+                        rres = run_session(dict(session, steps=[{"k": "gen", "omit_ser": bool(step.get("omit_ser")), "which": step.get("which", "both")}]))
+                        evaluations += 1
+                        recs = rres.get("session") or []
+                        okr = nnvg.succeeded(rres) and recs and recs[0]["status"] == "ok"
+                        ref_cache[key] = {"files": {k: (v[4], v[2], v[5] if len(v) > 5 else None) for k, v in recs[0]["after"].items() if v[0] == "f"}} if okr else {"files": None}
+                    finally:
+                        if os.path.lexists(out):
+                            nnvg._force_rmtree(out)  # pylint: disable=protected-access
+                        if had:
+                            os.rename(aside, out)
+                return ref_cache[key]["files"]
+
+            res = run_session(session)
+            evaluations += 1
+            ev_digests.append(nnvg.event_digest(res))
+            bump("ops", "api_session")
+            bump("status", "session:" + res["status"].split(":")[0])
+            if not nnvg.succeeded(res):
+                # (the session as a whole only fails if building the tree or the generators fails: nothing to judge)
+                bump("ops", "api_session-not-started:" + res["status"])
+                executed.append(op)
+                continue
+            want_mode = sopts.get("file_mode")
+            for rec in res.get("session") or []:
+                trace_key.append("s|%s|%s|%s|%s" % (rec["k"], rec.get("status"), op["steps"][rec["i"]].get("allow_overwrite", True), op["steps"][rec["i"]].get("which", "both")))
+                if rec["k"] != "gen":
+                    bump("probes", "api_step_" + rec["k"])
+                    continue
+                step = op["steps"][rec["i"]]
+                ref_files = session_reference(step)
+                if ref_files is None:
+                    bump("ops", "api-step-skipped-reference-fails")
+                    continue
+                before_f = {k: (v[4], v[2]) for k, v in rec["before"].items() if v[0] == "f"}
+                after_f = {k: (v[4], v[2], v[5] if len(v) > 5 else None) for k, v in rec["after"].items() if v[0] == "f"}
+                overlap = sorted(set(ref_files) & set(before_f))
+                ok = rec["status"] == "ok"
+                short = {"entry": "api", "session": sopts, "step_index": rec["i"], "step": step, "status": rec["status"], "exc": rec.get("exc_msg", ""), "steps": op["steps"][: rec["i"] + 1]}
+                if overlap:
+                    regen_over_existing = True
+                    bump("probes", "api_regenerated_over_existing")
+                if rec["i"] > 0:
+                    bump("probes", "api_generate_all_again_on_used_generator_objects")
+                if not step.get("allow_overwrite", True):
+                    changed = [p for p in sorted(rec["before"]) if rec["after"].get(p) != rec["before"][p]]
+                    if changed:
+                        violation("no-overwrite-modified:%s" % nnvg.sig_kind(changed[0]), dict(short, changed=changed[:5]))
+                    if overlap and ok:
+                        violation("no-overwrite-conflict-not-reported:%s" % nnvg.sig_kind(overlap[0]), dict(short, conflict=overlap[:5]))
+                    if overlap:
+                        bump("probes", "no_overwrite_conflict")
+                    if not overlap and not ok:
+                        violation("no-progress:%s:clean" % rec["status"], short)
+                    if not ok:
+                        continue
+                elif not ok:
+                    first = overlap[0] if overlap else ""
+                    violation("no-progress:%s:%s" % (rec["status"], nnvg.sig_kind(first) if first else "clean"), dict(short, pre_modes={p: oct(before_f[p][1]) for p in overlap[:6]}))
+                    continue
+                for p in sorted(ref_files):
+                    if p not in after_f:
+                        violation("success-missing-file:%s" % nnvg.sig_kind(p), dict(short, path=p))
+                        break
+                    if after_f[p][0] != ref_files[p][0]:
+                        if after_f[p][2] is not None and after_f[p][2] == ref_files[p][2]:
+                            # the whole difference is inside _MODEL_ and vanishes once pydsdl's memoization caches are dropped
+                            violation("success-wrong-bytes:%s:py-model-pickles-pydsdl-memoization-caches" % nnvg.sig_kind(p), dict(short, path=p, had_before=p in before_f))
+                            continue
+                        violation("success-wrong-bytes:%s" % nnvg.sig_kind(p), dict(short, path=p, had_before=p in before_f))
+                        break
+                    if want_mode is not None and (after_f[p][1] != (want_mode & 0o7777) or ref_files[p][1] != (want_mode & 0o7777)):
+                        violation("success-wrong-mode:%s" % nnvg.sig_kind(p), dict(short, path=p, mode=oct(after_f[p][1]), ref_mode=oct(ref_files[p][1]), want=oct(want_mode)))
+                        break
         else:
             path = op.get("path")
             if path is None:
@@ -534,6 +678,14 @@ def reductions(case: dict) -> typing.Iterator[dict]:
             c = dict(case)
             c["ops"] = ops[:i] + ops[i + 1 :]
             yield c
+    # drop a step of an API session
+    for i, op in enumerate(ops):
+        if op["op"] == "api_session" and len(op["steps"]) > 1:
+            for j in range(len(op["steps"])):
+                c = dict(case)
+                c["ops"] = [dict(o) for o in ops]
+                c["ops"][i]["steps"] = op["steps"][:j] + op["steps"][j + 1 :]
+                yield c
     # drop a fault
     for i, op in enumerate(ops):
         if op.get("fault"):
@@ -543,7 +695,7 @@ def reductions(case: dict) -> typing.Iterator[dict]:
             yield c
     # drop optional flags
     for i, op in enumerate(ops):
-        if op["op"] != "generate":
+        if op["op"] not in ("generate", "api_session"):
             continue
         for k in sorted(op["opts"]):
             if k in ("lang", "root", "lookups"):
